@@ -315,9 +315,17 @@ def wl_traceback(ctx, rng, case_no):
         import atexit
         atexit.register(shutil.rmtree, _tmpdir, True)
     src, info = gen_module(rng, case_no)
-    path = os.path.join(_tmpdir, "mod_%d_%d.py" % (os.getpid(), case_no))
+    # a handful of paths are used over and over with new content (a program that is edited and re-run, a file
+    # restored from a backup): half of the time the new file's mtime is made OLDER than any earlier version's
+    path = os.path.join(_tmpdir, "mod_%d_%d.py" % (os.getpid(), case_no % 3 if rng.random() < 0.5 else case_no))
+    reused = os.path.exists(path)
     with open(path, "w", encoding="utf-8") as f:
         f.write(src)
+    if rng.random() < 0.5:
+        old = 1500000000 - case_no
+        os.utime(path, (old, old))
+    linecache.checkcache(path)
+    ctx.hist("traceback_source_path", "reused" if reused else "fresh")
     try:
         spec = importlib.util.spec_from_file_location("rv_c17_mod_%d" % case_no, path)
         mod = importlib.util.module_from_spec(spec)
@@ -360,7 +368,7 @@ def wl_traceback(ctx, rng, case_no):
                     break
                 block.append(l)
             marked = [l for l in block if "❱" in l]
-            want_text = linecache.getline(path, lineno).rstrip("\n")
+            want_text = (src.split("\n") + [""] * lineno)[lineno - 1]     # the file's current content, not a cache's
             if len(marked) != 1:
                 ctx.violation("traceback-failing-line-not-marked-once:leading_blank=%s" % (src.startswith("\n")),
                               dict(wit, frame=name, lineno=lineno, marked=marked, block=block))
@@ -385,11 +393,7 @@ def wl_traceback(ctx, rng, case_no):
         ctx.case_done(("tb", src), src.startswith("\n") or n_frames >= 2,
                       {"source": src, "raise_lines": info["raise_lines"]})
     finally:
-        try:
-            os.unlink(path)
-        except OSError:
-            pass
-        linecache.checkcache(path)
+        linecache.clearcache()
 
 
 def workloads(tier):
